@@ -72,7 +72,7 @@ struct AllocBook {
     std::mutex m; std::set<void*> live; long leaked = 0;
     void add(void* p) { std::lock_guard<std::mutex> l(m); live.insert(p); }
     void del(void* p) { std::lock_guard<std::mutex> l(m); live.erase(p); }
-    long sweep() { std::lock_guard<std::mutex> l(m); long n = (long)live.size(); for (void* p : live) ::operator delete(p); live.clear(); leaked += n; return n; }
+    long sweep() { std::lock_guard<std::mutex> l(m); long n = (long)live.size(); for (void* p : live) ::operator delete(p, std::align_val_t(128)); live.clear(); leaked += n; return n; }
 };
 inline AllocBook& alloc_book() { static AllocBook b; return b; }
 template <class T> struct FailAlloc {
@@ -81,11 +81,12 @@ template <class T> struct FailAlloc {
     template <class U> FailAlloc(const FailAlloc<U>&) {}
     T* allocate(size_t n) {
         try { alloc_inj().on_call(); } catch (Boom&) { throw std::bad_alloc(); }
-        void* p = ::operator new(n * sizeof(T), std::align_val_t(alignof(T) > 64 ? alignof(T) : 64));
+        static_assert(alignof(T) <= 128, "alignment");
+        void* p = ::operator new(n * sizeof(T), std::align_val_t(128));
         alloc_book().add(p);
         return (T*)p;
     }
-    void deallocate(T* p, size_t) { alloc_book().del(p); ::operator delete((void*)p, std::align_val_t(alignof(T) > 64 ? alignof(T) : 64)); }
+    void deallocate(T* p, size_t) { alloc_book().del(p); ::operator delete((void*)p, std::align_val_t(128)); }
     template <class U> bool operator==(const FailAlloc<U>&) const { return true; }
     template <class U> bool operator!=(const FailAlloc<U>&) const { return false; }
 };
@@ -151,10 +152,11 @@ struct Pool {
     std::atomic<bool> quit{false};
     int n_active = 0;
     std::function<void(int)> job;
-    HookThread* hts[kMax] = {};
+    std::atomic<HookThread*> hts[kMax];
     explicit Pool(int n) {
+        for (auto& h : hts) h.store(nullptr);
         for (int t = 0; t < n; t++) th.emplace_back([this, t] {
-            hts[t] = &hook_thread();
+            hts[t].store(&hook_thread(), std::memory_order_release);
             uint64_t seen = 0;
             for (;;) {
                 int sp = 0; uint64_t w;
@@ -184,7 +186,7 @@ struct Pool {
     bool done() const { return finished.load(std::memory_order_acquire) >= n_active; }
     void wait() { int s = 0; while (!done()) relax(s); }
     ~Pool() { quit.store(true); wake(); for (auto& t : th) t.join(); }
-    bool asleep(int t) const { return hts[t] && hts[t]->sleeping_on.load(std::memory_order_relaxed) != nullptr; }
+    bool asleep(int t) const { HookThread* h = hts[t].load(std::memory_order_acquire); return h && h->sleeping_on.load(std::memory_order_relaxed) != nullptr; }
 };
 
 // ------------------------------------------------------------------------------------------------ hang context
